@@ -46,15 +46,18 @@ let file_of_hex h = if h = "-empty" then Some [] else Some (bytes_of_hex h)
 let name_of_hex h = if h = "-" then [] else bytes_of_hex h
 type nb = { mutable os : int; mutable cpumap : n list option; mutable distance : n list option;
             mutable msc : msc_files list option; mutable a1 : n list list option; mutable a0 : n list list option }
-let ln_cfg = ref None and ln_online = ref None and ln_dir = ref (Some []) and ln_nodes = ref [] and ln_view = ref None
+let ln_cfg = ref None and ln_online = ref None and ln_dir = ref (Some []) and ln_nodes = ref [] and ln_view = ref None and ln_gpus = ref []
 let mreqs = ref []
 let kv_of line = kv_tbl (split_on ' ' line)
 let show_set (s : bset) = text_of_bset (Some s)
 let show_req (m : mreq) = Printf.sprintf "ty=%d os=%d cs=%s ns=%s cd=%d csz=%s" (int_of_n m.r_type) (int_of_n m.r_os) (show_set m.r_cs) (show_set m.r_ns) (int_of_n m.r_depth) (dec_of_n m.r_size)
 let handle_lnode line =
   match split_on ' ' line with
-  | "lnode" :: "begin" :: _ -> ln_cfg := Some (kv_of line); ln_online := None; ln_dir := Some []; ln_nodes := []; ln_view := None; mreqs := []
+  | "lnode" :: "begin" :: _ -> ln_cfg := Some (kv_of line); ln_online := None; ln_dir := Some []; ln_nodes := []; ln_view := None; mreqs := []; ln_gpus := []
   | ["lnode"; "online"; h] -> ln_online := file_of_hex h
+  | ["lnode"; "gpu"; _] -> ln_gpus := { g_status = None; g_local = None } :: !ln_gpus
+  | ["lnode"; "gf"; "status"; h] -> (match !ln_gpus with g :: t -> ln_gpus := { g with g_status = file_of_hex h } :: t | [] -> ())
+  | ["lnode"; "gf"; "local"; h] -> (match !ln_gpus with g :: t -> ln_gpus := { g with g_local = file_of_hex h } :: t | [] -> ())
   | ["lnode"; "nodir"] -> ln_dir := None
   | ["lnode"; "dir"; h] -> (match !ln_dir with Some l -> ln_dir := Some (l @ [name_of_hex h]) | None -> ())
   | ["lnode"; "node"; n] -> ln_nodes := { os = int_of_string n; cpumap = None; distance = None; msc = None; a1 = None; a0 = None } :: !ln_nodes
@@ -88,7 +91,7 @@ let handle_lnode line =
            let b k = g k <> "0" in
            let view = { nv_dist = b "dist"; nv_dcl = b "dcl"; nv_init = b "init"; nv_knl = b "knl" && b "knlquirk"; nv_fake = b "fake"; nv_msc = b "msc";
                         nv_overlap = (if g "overlap" = "-" then None else Some (z_of_int (int_of_string (g "overlap"))));
-                        nv_nvidia = b "nvidia"; nv_online = !ln_online; nv_dir = !ln_dir;
+                        nv_nvidia = b "nvidia"; nv_keep = b "keep"; nv_gpus = Stdlib.List.rev !ln_gpus; nv_online = !ln_online; nv_dir = !ln_dir;
                         nv_nodes = Stdlib.List.rev_map (fun nb -> { nf_os = n_of_int nb.os; nf_cpumap = nb.cpumap; nf_distance = nb.distance;
                                                                     nf_msc = nb.msc; nf_acc1 = nb.a1; nf_acc0 = nb.a0 }) !ln_nodes } in
            ln_view := Some (view, b "rootnodes")
